@@ -353,7 +353,57 @@ def classify(results, expect_panic):
     return out
 
 
-def run_harness(rec, scratch, mem_gb, timeout):
+UNWIND_FILE = os.path.join(VERIF, "harness", "unwind.json")
+_unwind_cache = None
+
+
+def calibrated_unwind(name):
+    """smallest unwind bound known to pass the unwinding assertions of this harness on the
+    reference tree (harness/unwind.json, written by `bin/check <ID> --calibrate`); the
+    #[kani::unwind] attribute in the source is the upper bound that is tried on failure"""
+    global _unwind_cache
+    if _unwind_cache is None:
+        try:
+            _unwind_cache = json.load(open(UNWIND_FILE))
+        except Exception:
+            _unwind_cache = {}
+    return _unwind_cache.get(name)
+
+
+def run_harness(rec, scratch, mem_gb, timeout, calibrate=False):
+    """run one harness; start from the calibrated unwind bound and fall back to larger bounds
+    (up to the attribute's value) whenever an unwinding assertion fails, so a bound that is
+    too small is never reported as success"""
+    top = rec["unwind"]
+    if top is None:
+        return run_harness_once(rec, scratch, mem_gb, timeout, None)
+    cal = calibrated_unwind(rec["name"])
+    ladder = [n for n in (2, 3, 4, 5, 6, 7, 8, 10, 12, 16, 20, 24, 34, 48, 67, 131) if n < top] + [top]
+    if calibrate:
+        tries = ladder
+    elif cal is not None and cal <= top:
+        tries = [cal] + [n for n in ladder if n > cal]
+    else:
+        tries = [top]
+    res = None
+    spent = 0.0
+    for n in tries:
+        res = run_harness_once(rec, scratch, mem_gb, timeout, n, keep_symtab=(n != tries[-1]))
+        spent += res.get("wall_s", 0)
+        res["unwind_used"] = n
+        res["unwind_attr"] = top
+        too_small = any(u.get("status") == "UNWIND-BOUND-TOO-SMALL" for u in res.get("undetermined", []))
+        if not too_small:
+            break
+    try:
+        os.unlink(rec["symtab"])
+    except OSError:
+        pass
+    res["wall_s"] = round(spent, 2)
+    return res
+
+
+def run_harness_once(rec, scratch, mem_gb, timeout, unwind, keep_symtab=False):
     """goto-cc / goto-instrument / cbmc for one harness; returns result record"""
     name, cfg = rec["name"], rec["cfg"]
     out = os.path.join(scratch, "%s-%s.out" % (cfg, name))
@@ -367,21 +417,21 @@ def run_harness(rec, scratch, mem_gb, timeout):
          "--generate-function-body", ".*", "--drop-unused-functions", out, out],
         ["goto-instrument", "--ensure-one-backedge-per-target", out, out],
     ]
-    res = {"name": name, "pretty": rec.get("pretty", name), "cfg": cfg, "unwind": rec["unwind"], "stubs": rec["stubs"]}
+    res = {"name": name, "pretty": rec.get("pretty", name), "cfg": cfg, "unwind": unwind, "stubs": rec["stubs"]}
     for s in steps:
         rc, o = sh(s)
         if rc != 0:
             res.update(status="inconclusive", reason="%s failed: %s" % (s[0], o[-500:]), wall_s=time.time() - t0)
             return res
     cmd = ["cbmc"] + CBMC_FLAGS[:-1]
-    if rec["unwind"] is not None:
-        cmd += ["--unwind", str(rec["unwind"])]
+    if unwind is not None:
+        cmd += ["--unwind", str(unwind)]
     cmd += ["--slice-formula", out, "--verbosity", "8", "--json-ui"]
     rc, wall, rss = run_capped(cmd, logp, mem_gb, timeout)
     results, stats, err = parse_cbmc_json(logp)
     res.update(stats)
     res.update(wall_s=round(time.time() - t0, 2), cbmc_wall_s=round(wall, 2), peak_rss_mb=rss // 1024, cbmc_rc=rc)
-    for f in (out, rec["symtab"]):
+    for f in ((out,) if keep_symtab else (out, rec["symtab"])):
         try:
             os.unlink(f)
         except OSError:
@@ -401,9 +451,11 @@ def run_harness(rec, scratch, mem_gb, timeout):
     return res
 
 
-def run_pool(recs, scratch, opts_for, total_mem_gb, max_jobs, progress=None):
+def run_pool(recs, scratch, opts_for, total_mem_gb, max_jobs, progress=None, calibrate=False):
     """memory-budgeted pool: start heaviest first, never exceed total_mem_gb of caps"""
+    # scheduling budget = 0.6 x the address-space cap (measured peaks stay well below the caps)
     pending = sorted(recs, key=lambda r: -opts_for(r)["mem_gb"])
+    BUD = 0.6
     results = []
     lock = threading.Lock()
     cv = threading.Condition(lock)
@@ -411,11 +463,11 @@ def run_pool(recs, scratch, opts_for, total_mem_gb, max_jobs, progress=None):
 
     def worker(rec, o):
         try:
-            r = run_harness(rec, scratch, o["mem_gb"], o["timeout"])
+            r = run_harness(rec, scratch, o["mem_gb"], o["timeout"], calibrate)
         except Exception as e:  # never lose a harness silently
             r = {"name": rec["name"], "cfg": rec["cfg"], "status": "inconclusive", "reason": "driver error: %r" % e}
         with cv:
-            state["mem"] -= o["mem_gb"]
+            state["mem"] -= 0.6 * o["mem_gb"]
             state["jobs"] -= 1
             results.append(r)
             if progress:
@@ -428,9 +480,9 @@ def run_pool(recs, scratch, opts_for, total_mem_gb, max_jobs, progress=None):
             started = False
             for i, rec in enumerate(pending):
                 o = opts_for(rec)
-                if state["jobs"] < max_jobs and (state["mem"] + o["mem_gb"] <= total_mem_gb or state["jobs"] == 0):
+                if state["jobs"] < max_jobs and (state["mem"] + BUD * o["mem_gb"] <= total_mem_gb or state["jobs"] == 0):
                     pending.pop(i)
-                    state["mem"] += o["mem_gb"]
+                    state["mem"] += BUD * o["mem_gb"]
                     state["jobs"] += 1
                     t = threading.Thread(target=worker, args=(rec, o))
                     t.start()
